@@ -295,4 +295,46 @@ theorem run_spec (cfg : Cfg) (items : List In) :
             simp [Out.down, emit]
           · simp [specResults, busyAfter, hc, h3]
 
+
+/-- the other direction: an ill-timed time-out (the instance is not mid-run) is the plugin's
+    documented `Panicf("timeout without joining, why?")` -/
+theorem run_untimely (cfg : Cfg) (items : List In) :
+    (∀ f cs, timely cfg true items = false →
+      (run cfg (openSt cfg f cs) items).fin = .error .other) ∧
+    (∀ st, st.isJoining = false → timely cfg false items = false →
+      (run cfg st items).fin = .error .other) := by
+  induction items with
+  | nil => exact ⟨fun _ _ h => by simp [timely] at h, fun _ _ h => by simp [timely] at h⟩
+  | cons x r ih =>
+    obtain ⟨ihO, ihI⟩ := ih
+    refine ⟨fun f cs ht => ?_, fun st hj ht => ?_⟩
+    · cases x with
+      | timeout t =>
+        rw [run_cons_ok (step_open_timeout cfg f cs t)]
+        exact ihI _ rfl (by simpa [timely, busyAfter] using ht)
+      | ev e =>
+        cases hc : classify cfg e with
+        | start =>
+          rw [run_cons_ok (step_open_start cfg f cs e hc)]
+          exact ihO e [] (by simpa [timely, busyAfter, hc] using ht)
+        | cont =>
+          rw [run_cons_ok (step_open_cont cfg f cs e hc)]
+          exact ihO f (cs ++ [e]) (by simpa [timely, busyAfter, hc] using ht)
+        | other =>
+          rw [run_cons_ok (step_open_other cfg f cs e hc)]
+          exact ihI _ rfl (by simpa [timely, busyAfter, hc] using ht)
+    · cases x with
+      | timeout t => simp [run, step_idle_timeout cfg st hj t]
+      | ev e =>
+        cases hc : classify cfg e with
+        | start =>
+          rw [run_cons_ok (step_idle_start cfg st hj e hc)]
+          exact ihO e [] (by simpa [timely, busyAfter, hc] using ht)
+        | cont =>
+          rw [run_cons_ok (step_idle_cont cfg st hj e hc)]
+          exact ihI st hj (by simpa [timely, busyAfter, hc] using ht)
+        | other =>
+          rw [run_cons_ok (step_idle_other cfg st hj e hc)]
+          exact ihI st hj (by simpa [timely, busyAfter, hc] using ht)
+
 end FileD.Join
